@@ -389,6 +389,28 @@ func (x *Exec) applyMods(st *State, mods []modLoc) {
 
 // havocHeapForce: like havocHeap but also works for heaps not yet referenced (lazy placeholder).
 func (x *Exec) havocHeapForce(st *State, name string) {
+	if strings.HasPrefix(name, "G$calls$") && !strings.Contains(name, "$arg") {
+		// the recorded arguments of the most recent call go with the call counter
+		var extra []string
+		for k := range st.heap {
+			if strings.HasPrefix(k, name+"$arg") {
+				extra = append(extra, k)
+			}
+		}
+		for k := range x.eng.heapSorts {
+			if strings.HasPrefix(k, name+"$arg") {
+				extra = append(extra, k)
+			}
+		}
+		sort.Strings(extra)
+		prev := ""
+		for _, k := range extra {
+			if k != prev {
+				x.havocHeapForce(st, k)
+			}
+			prev = k
+		}
+	}
 	if _, ok := x.eng.heapSorts[name]; ok {
 		x.havocHeap(st, name)
 		return
@@ -662,6 +684,36 @@ func (x *Exec) applyContract(fr *Frame, st *State, reach string, con *Contract, 
 		name := callCounter(key)
 		h := x.heap(st, name, "(Array Int Int)")
 		x.setHeap(st, name, "(Array Int Int)", sx("store", h, idx, sx("+", sx("select", h, idx), "1")))
+		// total over all receivers at index -1: callstotal("key")
+		tot := x.heap(st, name+"$argtotal", "Int")
+		x.setHeap(st, name+"$argtotal", "Int", sx("+", tot, "1"))
+		// ghost record of the arguments of the most recent call: lastarg("key", i)
+		for ai, a := range args {
+			an := fmt.Sprintf("%s$arg%d", callCounter(key), ai)
+			switch av := a.(type) {
+			case Sc:
+				if av.S == "Int" || av.S == "Bool" || av.S == "Str" {
+					x.heap(st, an, av.S)
+					x.setHeap(st, an, av.S, av.T)
+				}
+			case IfaceV:
+				x.heap(st, an, "Int")
+				x.setHeap(st, an, "Int", av.Ref)
+			case SliceV:
+				// byte slices are recorded by content (as of the call), other slices by backing array
+				if ai < len(argTypes(callee, sig, recvT)) {
+					if sl, ok := argTypes(callee, sig, recvT)[ai].Underlying().(*types.Slice); ok {
+						if bt, ok := sl.Elem().Underlying().(*types.Basic); ok && bt.Kind() == types.Uint8 {
+							x.declSort("Str")
+							x.heap(st, an, "Str")
+							x.setHeap(st, an, "Str", x.bytesVal(pre, av))
+							x.heap(st, an+".nil", "Bool")
+							x.setHeap(st, an+".nil", "Bool", sx("=", av.Arr, "0"))
+						}
+					}
+				}
+			}
+		}
 	}()
 	if has {
 		x.applyMods(st, mods)
@@ -753,6 +805,30 @@ func (x *Exec) applyContract(fr *Frame, st *State, reach string, con *Contract, 
 		if kindOf(sig.Results().At(i).Type()) == KPtr {
 			if s, ok := rv.(Sc); ok {
 				x.assume(reach, sx("<=", s.T, st.alc))
+			}
+		}
+	}
+	// ghost record of the results of the most recent call: lastret("key", i)
+	for ri, rv := range rvals {
+		rn := fmt.Sprintf("%s$argret%d", callCounter(key), ri)
+		switch v := rv.(type) {
+		case Sc:
+			if v.S == "Int" || v.S == "Bool" || v.S == "Str" {
+				x.heap(st, rn, v.S)
+				x.setHeap(st, rn, v.S, v.T)
+			}
+		case IfaceV:
+			x.heap(st, rn, "Int")
+			x.setHeap(st, rn, "Int", v.Tag)
+		case SliceV:
+			if sl, ok := sig.Results().At(ri).Type().Underlying().(*types.Slice); ok {
+				if bt, ok := sl.Elem().Underlying().(*types.Basic); ok && bt.Kind() == types.Uint8 {
+					x.declSort("Str")
+					x.heap(st, rn, "Str")
+					x.setHeap(st, rn, "Str", x.bytesVal(st, v))
+					x.heap(st, rn+".nil", "Bool")
+					x.setHeap(st, rn+".nil", "Bool", sx("=", v.Arr, "0"))
+				}
 			}
 		}
 	}
@@ -1091,4 +1167,21 @@ func (x *Exec) assumeCallbackClauses(fr *Frame, st *State, reach string, ins ssa
 		x.assume(reach, f)
 		x.assumed["user callback assumed to satisfy: "+cl.Text] = true
 	}
+}
+
+func argTypes(callee *ssa.Function, sig *types.Signature, recvT types.Type) []types.Type {
+	var ts []types.Type
+	if callee != nil {
+		for _, p := range callee.Params {
+			ts = append(ts, p.Type())
+		}
+		return ts
+	}
+	if recvT != nil {
+		ts = append(ts, recvT)
+	}
+	for i := 0; i < sig.Params().Len(); i++ {
+		ts = append(ts, sig.Params().At(i).Type())
+	}
+	return ts
 }
